@@ -44,6 +44,9 @@ SCN = {"root": "Base", "classes": {
     "Base": S.cls(BASE_ATTRS),
     "SubSpec": S.cls([inh(a, L(I(2)) if a["name"] == "a" else None) for a in BASE_ATTRS] + [S.attr("h", S.TL(S.TINT), "lit", L(I(5)), item="h_item")], bases=["Base"]),
     "SubPlain": S.cls([inh(a, L(I(7)) if a["name"] == "a" else LF(9) if a["name"] == "e" else None) for a in BASE_ATTRS], bases=["Base"], plain=True),
+    # a parent that shares some attributes by design (do_not_copy) and a decorated subclass that does not ask for that: the subclass copies
+    "DncBase": S.cls([dict(a, dnc=a["name"] in ("e", "g", "m")) for a in BASE_ATTRS]),
+    "SubOfDnc": S.cls([inh(a) for a in BASE_ATTRS], bases=["DncBase"]),
     "SubPlain2": S.cls([inh(a, SET(I(4)) if a["name"] == "c" else None) for a in BASE_ATTRS] + [inh(S.attr("h", S.TL(S.TINT), "lit", L(I(5)), item="h_item"))], bases=["SubSpec"], plain=True),
 }}
 
@@ -78,7 +81,7 @@ def run_histories(job):
     rnd = random.Random(sd)
     w = World("defaults", SCN)
     out = []
-    classes = ["Base", "SubSpec", "SubPlain", "SubPlain2"]
+    classes = ["Base", "SubSpec", "SubPlain", "SubPlain2", "SubOfDnc"]          # (DncBase itself shares by design and is never instantiated)
     for h in range(n_hist):
         reg = Registry()
         insts, args = {}, {}
@@ -86,7 +89,7 @@ def run_histories(job):
 
         def roots():
             rs = []
-            for cname in classes + ["Leaf", "KLeaf"]:
+            for cname in classes + ["DncBase", "Leaf", "KLeaf"]:
                 for a in SCN["classes"][cname]["attrs"]:
                     v = w.classes[cname].__dict__.get(a["name"], None)
                     if a["name"] in w.classes[cname].__dict__ and not callable(v):
